@@ -33,7 +33,9 @@ def addr_exprs(prog, f):
         if e is None:
             continue
         if any(x['k'] == 'MemberExpr' and x.get('rec') not in ('sf_private_tag', None) for x in f.walk(e)):
-            out.add(f.s(e))
+            in_loop = any(a['k'] in ('WhileStmt', 'ForStmt', 'DoStmt') for a in f.ancestors(n))
+            # the same offset computed once before the chunk loop instead of per chunk is a different addressing (the state it reads changes inside the loop)
+            out.add(f.s(e) if in_loop else f.s(e) + ' [outside the chunk loop]')
     return out
 
 
